@@ -44,8 +44,7 @@ TiedCells(r) ==
 CompOK(r, k) ==
   LET o == r.outs[k] IN
   IF o.kind = "pairmat_tie"
-  THEN TieApplicable(r) /\
-       LET T == TiedCells(r) IN
+  THEN LET T == TiedCells(r) IN
        MatPermutesExcept(o.num, r.n, o.a, o.b, r.p, LAMBDA i, j : <<i, j>> \in T)
   ELSE Equivariant(o.kind, o.num, r.n, o.a, o.b, r.p)
 
@@ -54,11 +53,12 @@ JudgeClause(r) ==
   Skip("input_not_renumbered", \E k \in 1..Len(r.ins) :
                                   ~InputRenumbered(r.ins[k].act, r.n, r.ins[k].a, r.ins[k].b, r.p),
   Skip("outside_domain",       ~InDomain(r),
+  Skip("tie_rule_not_applicable", \E k \in 1..Len(r.outs) : r.outs[k].kind = "pairmat_tie" /\ ~TieApplicable(r),
   (* position dependence includes raising for one numbering and not for the other      *)
   Chk("RaisesAlike",           r.raised1 = r.raised2,
   Skip("both_raise",           r.raised1 # "",
   LET bad == {k \in 1..Len(r.outs) : ~CompOK(r, k)} IN
-  IF bad = {} THEN "ok" ELSE ClauseOf(r.outs[MinOf(bad)].kind))))))
+  IF bad = {} THEN "ok" ELSE ClauseOf(r.outs[MinOf(bad)].kind)))))))
 
 Class(r) ==
   LET A == FirstMat(r) IN
